@@ -136,8 +136,21 @@ def if_stepper(chk: Check) -> None:
     if not tests:
         return
     t = tests[0]
-    # from the true edge no further predicate evaluation is reachable within the invocation
-    reach = cfg.reachable([s for s, l in t.succ if l == 'true'], include_src=True)
+    # which edge of the test means "the predicate held" (the test may be written ``if pred`` or ``if not pred``)
+    ff0 = chk.ctx.facts.analyse(f)
+    pcall = [c for c in _calls(t) if last_name(c) == 'is_true'][0]
+    pkey = ff0.canon.key(pcall)
+    if ('T', pkey) in ff0.cond_atoms(t.ast.test, True):
+        L_TRUE, L_FALSE = 'true', 'false'
+    elif ('T', pkey) in ff0.cond_atoms(t.ast.test, False):
+        L_TRUE, L_FALSE = 'false', 'true'
+    else:
+        L_TRUE, L_FALSE = None, None
+    chk.ob('DOM-if-short-circuit', f, L_TRUE is not None, 'the branch decision is the predicate\'s truth value itself (not combined with anything else)', node=t.ast, kind='decision-is-predicate')
+    if L_TRUE is None:
+        return
+    # from the predicate-true edge no further predicate evaluation is reachable within the invocation
+    reach = cfg.reachable([s for s, l in t.succ if l == L_TRUE], include_src=True)
     chk.ob('DOM-if-short-circuit', f, t.id not in reach, 'once a predicate is true no later predicate is evaluated (the search loop is left)', node=t.ast, kind='first-true-wins')
     # the search runs over the conditionals in order, advancing the position on every false predicate
     loops = [l for l in ast.walk(f.node) if isinstance(l, ast.For) and any(x is t.ast for x in ast.walk(l))]
@@ -146,9 +159,9 @@ def if_stepper(chk: Check) -> None:
     call = [c for c in _calls(t) if last_name(c) == 'is_true'][0]
     ok = ok and norm(call.func.value) == var and [norm(a) for a in call.args] == ['self._workchain']
     chk.ob('DOM-if-short-circuit', f, ok, 'predicates are tried in the order of the if_/elif_/else_ chain, each with the workchain', kind='in-order')
-    false_side = cfg.reachable([s for s, l in t.succ if l == 'false'], include_src=True, edge_ok=no_exc)
+    false_side = cfg.reachable([s for s, l in t.succ if l == L_FALSE], include_src=True, edge_ok=no_exc)
     inc = [n for n in cfg.nodes if n.kind == 'stmt' and isinstance(n.ast, ast.AugAssign) and norm(n.ast.target) == 'self._pos' and isinstance(n.ast.op, ast.Add) and norm(n.ast.value) == '1']
-    ok = len(inc) == 1 and inc[0].id in false_side and cfg.must_pass([s for s, l in t.succ if l == 'false'][0], [t], lambda m: m in inc, edge_ok=no_exc)
+    ok = len(inc) == 1 and inc[0].id in false_side and cfg.must_pass([s for s, l in t.succ if l == L_FALSE][0], [t], lambda m: m in inc, edge_ok=no_exc)
     chk.ob('DOM-if-short-circuit', f, ok, 'a false predicate advances the position by exactly one before the next is tried', kind='advance-on-false')
     # the search happens only when there is no live child; the child comes from the branch at the current position
     ff = chk.ctx.facts.analyse(f)
